@@ -586,11 +586,13 @@ pub fn respellings(r: &mut Rng, a: &IG) -> Vec<(&'static str, IG)> {
             IG::MultiPolygon(v) if !v.is_empty() => {
                 let mut w = v.clone();
                 w.insert(r.below(w.len() as u64 + 1) as usize, vec![]);
+                out.push(("GC of a MultiPolygon with an empty member", IG::Collection(vec![IG::MultiPolygon(w.clone())])));
                 out.push(("MultiPolygon with an empty member", IG::MultiPolygon(w)));
             }
             IG::MultiLineString(v) if !v.is_empty() => {
                 let mut w = v.clone();
                 w.insert(r.below(w.len() as u64 + 1) as usize, vec![]);
+                out.push(("GC of an MLS with an empty member", IG::Collection(vec![IG::MultiLineString(w.clone())])));
                 out.push(("MLS with an empty member", IG::MultiLineString(w)));
             }
             _ => {}
